@@ -422,7 +422,7 @@ func c15r5(c *Ctx, id string) {
 	w := c.W
 	var found bool
 	for _, site := range asyncSites(w) {
-		if rootFn(site.Fn).Name() == "GetVBucketSeqNos" {
+		if site.Op == "GetVbucketSeqnos" { // (the operation, wherever the wrapper keeps it)
 			found = true
 			checkOutcomeIsServers(c, id, site)
 		}
